@@ -102,6 +102,24 @@ class BaseForm(metaclass=UFLType):
     # Slots is kept empty to enable multiple inheritance with other
     # classes
     __slots__ = ()
+
+    def __setstate__(self, state):
+        """Restore pickled state without the cached hash.
+
+        The hash is derived from string hashes, which differ between
+        processes, so a pickled hash must not be reused.
+        """
+        if isinstance(state, tuple) and len(state) == 2:
+            state, slots = state
+        else:
+            slots = None
+        if state:
+            self.__dict__.update(state)
+        if slots:
+            for name, value in slots.items():
+                setattr(self, name, value)
+        if hasattr(self, "_hash"):
+            self._hash = None
     _ufl_is_abstract_ = True
     _ufl_required_methods_: tuple[str, ...] = (
         "_analyze_form_arguments",
